@@ -21,18 +21,18 @@ From LunaLib Require Import Machine.
 From LunaModel Require Import SsIn SsIn_proofs.
 Open Scope N_scope.
 
-(* For every max_packet_size (multiple of 4, 8..1024), endpoint number, sequence-number width and EVERY input
+(* For every max_packet_size (multiple of 4, 4..1024), endpoint number, sequence-number width and EVERY input
    history (all stream words / valid gaps, all host ACK / retry / IN-request timings, all tx.ready patterns):
    the referee accepts the endpoint model's interface trace, up to the first cycle (if any) in which the
    environment breaks its contract. *)
-Theorem C46_endpoint_meets_spec : forall mps ep sb, 8 <= mps -> mps mod 4 = 0 -> mps <= 1024 ->
+Theorem C46_endpoint_meets_spec : forall mps ep sb, 4 <= mps -> mps mod 4 = 0 -> mps <= 1024 ->
   forall tr, accepts (ss_next mps ep sb) (ss_outputs mps ep sb) (ref_step mps ep sb) ss_init ref_init tr = true.
 Proof. intros mps ep sb H8 H4 H1k tr. apply ssin_accepted; assumption. Qed.
 Print Assumptions C46_endpoint_meets_spec.
 
 (* The same on packed interface words: any machine whose output words equal the model's (this is what the tie
    proves about the netlist regenerated from /repo) is accepted by the referee. *)
-Theorem C46_endpoint_meets_spec_io : forall mps ep sb, 8 <= mps -> mps mod 4 = 0 -> mps <= 1024 -> sb <= 5 ->
+Theorem C46_endpoint_meets_spec_io : forall mps ep sb, 4 <= mps -> mps mod 4 = 0 -> mps <= 1024 -> sb <= 5 ->
   forall tr outs, outs = run (ss_step mps ep sb) ss_init tr ->
   ref_accepts_io mps ep sb ref_init (combine tr outs) = true.
 Proof. exact ssin_accepted_io. Qed.
